@@ -70,6 +70,7 @@ Definition stop_ok (p : pc) : bool :=
 
 Definition ghost_ok (s : st) (th : thread) : Prop :=
   let p := t_pub th in
+  if is_entries (t_kind th) then gtodo s p = [] /\ goal s p = latest s p else
   match t_pc th with
   | PHandle => gtodo s p = [] /\ goal s p = latest s p /\ t_msg th <> 0 /\ t_stop th <> t_msg th /\
                (regress s = true \/ t_stop th < t_msg th)
@@ -80,7 +81,8 @@ Definition ghost_ok (s : st) (th : thread) : Prop :=
   end.
 
 Definition C_stop (s : st) : Prop :=
-  forall t th, threads s t = Some th -> stop_ok (t_pc th) = true -> t_stop th = latest s (t_pub th).
+  forall t th, threads s t = Some th -> is_entries (t_kind th) = false -> stop_ok (t_pc th) = true ->
+    t_stop th = latest s (t_pub th).
 Definition C_msg (s : st) : Prop :=
   forall t th, threads s t = Some th -> is_async (t_kind th) = true -> acting_pc (t_pc th) = true ->
     t_msg th = lastTaken s (t_pub th).
@@ -141,10 +143,10 @@ Lemma C_stop_step cap s l s' : InvA s -> InvB cap s -> InvC s -> stepf fixed cap
 Proof.
   intros A B C H. start A B C H.
   all: unfold C_stop; cbn_st; try assumption; step_kind A2;
-    intros t0 th0 H0 Hcs; thread_cases; cbn_st;
-    try (pose proof (Cstop _ _ Hth) as Is; rewrite Hpc in Is; cbn in Is);
-    try (pose proof (Cstop _ _ H0 Hcs) as I0);
-    try (rewrite Hpc in Hcs); cbn in Hcs; try discriminate Hcs;
+    intros t0 th0 H0 Hk Hcs; thread_cases; cbn_st;
+    try (pose proof (Cstop _ _ Hth) as Is; rewrite Hpc, ?Hkind in Is; cbn in Is; try specialize (Is eq_refl));
+    try (pose proof (Cstop _ _ H0 Hk Hcs) as I0);
+    try (rewrite Hpc in Hcs); rewrite ?Hkind in *; cbn in Hcs, Hk; try discriminate Hcs; try discriminate Hk;
     use_impl; updf_split; done; excl_smu B'.
 Qed.
 
@@ -219,13 +221,14 @@ Proof.
   intros A B C H. start A B C H.
   all: unfold C_ghost; cbn_st; try assumption; step_kind A2;
     intros t0 th0 H0 Hcs; thread_cases; cbn_st;
-    try (pose proof (Cghost _ _ Hth) as Is; rewrite Hpc in Is; cbn in Is; unfold ghost_ok in Is; rewrite Hpc in Is; cbn_st);
-    try (pose proof (Cstop _ _ Hth) as Ss; rewrite Hpc in Ss; cbn in Ss);
+    try (pose proof (Cghost _ _ Hth) as Is; rewrite Hpc in Is; cbn in Is; unfold ghost_ok in Is; rewrite Hpc, ?Hkind in Is; cbn_st);
+    try (pose proof (Cstop _ _ Hth) as Ss; rewrite Hpc, ?Hkind in Ss; cbn in Ss; try specialize (Ss eq_refl));
     try (pose proof (Bref _ _ Hth) as Rs; rewrite Hpc in Rs; cbn in Rs);
     try (apply same_false in Hsame);
     lazymatch goal with
     | Hne : t0 <> _ |- _ =>
       pose proof (Cghost _ _ H0 Hcs) as I0; unfold ghost_ok in *;
+      destruct (is_entries (t_kind th0)) eqn:Hent0;
       destruct (t_pc th0) eqn:Hpc0; try discriminate Hcs; cbn_st; try exact I0;
       use_impl; updf_split; use_impl; split_all; done;
       try (destruct (t_ok th0); use_impl; split_all; done);
@@ -236,7 +239,7 @@ Proof.
       try (excl_smu B')
     | _ =>
       try (rewrite Hpc in Hcs); cbn in Hcs; try discriminate Hcs;
-      unfold ghost_ok in *; cbn_st; rewrite ?Hpc; cbn_st;
+      unfold ghost_ok in *; cbn_st; rewrite ?Hpc, ?Hkind; cbn_st;
       use_impl; rewrite ?Hok, ?Htodo in *; try (destruct (t_ok th) eqn:?); use_impl; updf_split; use_impl; split_all; done;
       try (apply regress_or; congruence);
       try (match goal with Hs : smu _ (t_h ?th) = None, Hm : hmap _ (t_pub ?th) = Some (t_h ?th) |- _ =>
@@ -252,7 +255,7 @@ Proof.
     intros pp Hall;
     try (pose proof (Bref _ _ Hth) as Rs; rewrite Hpc in Rs; cbn in Rs);
     try (pose proof (Bsmu _ _ Hth) as Ls; rewrite Hpc in Ls; cbn in Ls);
-    try (pose proof (Cghost _ _ Hth) as Is; rewrite Hpc in Is; cbn in Is; unfold ghost_ok in Is; rewrite Hpc in Is; cbn_st);
+    try (pose proof (Cghost _ _ Hth) as Is; rewrite Hpc in Is; cbn in Is; unfold ghost_ok in Is; rewrite Hpc, ?Hkind in Is; cbn_st);
     use_impl;
     try (apply Gidle; intros hx Hx; specialize (Hall hx); updf_split; use_impl; done; fail);
     try (match goal with Hm : hmap _ (t_pub ?th) = Some (t_h ?th) |- _ =>
@@ -266,8 +269,11 @@ Proof.
       destruct (Gsmu _ _ Es) as (th1 & X1 & X2 & X3).
       destruct (Bref _ _ X1 (in_smu_has_h _ X2)) as (Hin & _). rewrite X3, Hrefs in Hin. destruct Hin.
     + rewrite (updf_other _ _ _ _ E) in Hall. apply Gidle. exact Hall.
-  - (* PUnlockS, async *)
-    destruct (Nat.eq_dec pp (t_pub th)) as [E|E]; [subst pp; split; assumption|].
+  (* PUnlockS: async, explicit, entries *)
+  - destruct (Nat.eq_dec pp (t_pub th)) as [E|E]; [subst pp; split; assumption|].
+    apply Gidle. intros hx Hx. specialize (Hall hx Hx). revert Hall. updf_split; intro Hall; done.
+    exfalso. destruct (Gmap _ _ Hx) as [G1 _]. congruence.
+  - destruct (Nat.eq_dec pp (t_pub th)) as [E|E]; [subst pp; split; assumption|].
     apply Gidle. intros hx Hx. specialize (Hall hx Hx). revert Hall. updf_split; intro Hall; done.
     exfalso. destruct (Gmap _ _ Hx) as [G1 _]. congruence.
   - destruct (Nat.eq_dec pp (t_pub th)) as [E|E]; [subst pp; split; assumption|].
@@ -337,7 +343,7 @@ Proof.
   all: unfold G_Q; cbn_st; try assumption; step_kind A2;
     intros pp; pose proof (GQ pp) as Q;
     try (pose proof (Cmsg _ _ Hth) as Ms; rewrite Hpc, ?Hkind in Ms; cbn in Ms);
-    try (pose proof (Cstop _ _ Hth) as Ss; rewrite Hpc in Ss; cbn in Ss);
+    try (pose proof (Cstop _ _ Hth) as Ss; rewrite Hpc, ?Hkind in Ss; cbn in Ss; try specialize (Ss eq_refl));
     try (apply orb_prop in Hsame; rewrite !Nat.eqb_eq in Hsame);
     try (apply same_false in Hsame);
     use_impl; updf_split;
@@ -397,8 +403,8 @@ Proof.
     intros Hr pp;
     try (apply orb_false_elim in Hr; destruct Hr as [Hr Hr']);
     pose proof (GO Hr pp) as Ip;
-    try (pose proof (Cghost _ _ Hth) as Is; rewrite Hpc in Is; cbn in Is; unfold ghost_ok in Is; rewrite Hpc in Is; cbn_st);
-    try (pose proof (Cstop _ _ Hth) as Ss; rewrite Hpc in Ss; cbn in Ss);
+    try (pose proof (Cghost _ _ Hth) as Is; rewrite Hpc in Is; cbn in Is; unfold ghost_ok in Is; rewrite Hpc, ?Hkind in Is; cbn_st);
+    try (pose proof (Cstop _ _ Hth) as Ss; rewrite Hpc, ?Hkind in Ss; cbn in Ss; try specialize (Ss eq_refl));
     use_impl; try exact Ip.
   - destruct (Nat.eq_dec pp (t_pub th)) as [E|E].
     + subst pp. rewrite !updf_same. destruct H3 as [H3|H3]; [congruence|].
@@ -427,7 +433,7 @@ Proof.
     try (pose proof (Cexp _ _ Hth) as Es; rewrite Hkind in Es; cbn in Es; specialize (Es eq_refl); congruence);
     destruct (GR Hn Ho) as [R1 R2];
     try (pose proof (Cmsg _ _ Hth) as Ms; rewrite Hpc, ?Hkind in Ms; cbn in Ms);
-    try (pose proof (Cstop _ _ Hth) as Ss; rewrite Hpc in Ss; cbn in Ss);
+    try (pose proof (Cstop _ _ Hth) as Ss; rewrite Hpc, ?Hkind in Ss; cbn in Ss; try specialize (Ss eq_refl));
     try (pose proof (Cwmsg _ _ Hth) as Ws; rewrite Hpc in Ws; cbn in Ws);
     try (pose proof (Bref _ _ Hth) as Rs; rewrite Hpc in Rs; cbn in Rs);
     try (pose proof (GL1 _ _ Hpend) as L1);
@@ -583,9 +589,9 @@ Proof. intros R Hr. pose proof (invC_reach _ _ R) as C. destruct_C C. apply GO; 
 (* the stop CID a sync works with is the latest sync at that moment (it cannot go stale
    while the sync waits or runs) *)
 Theorem stop_is_current cap s t th :
-  reach fixed cap s -> threads s t = Some th -> stop_ok (t_pc th) = true ->
+  reach fixed cap s -> threads s t = Some th -> is_entries (t_kind th) = false -> stop_ok (t_pc th) = true ->
   t_stop th = latest s (t_pub th).
-Proof. intros R H S. pose proof (invC_reach _ _ R) as C. destruct_C C. eapply Cstop; eauto. Qed.
+Proof. intros R H K S. pose proof (invC_reach _ _ R) as C. destruct_C C. eapply Cstop; eauto. Qed.
 
 (* An announcement the receiver's allow filter rejects is not an event of this system at
    all: whatever the variant and the state, it is enabled and changes nothing (in
